@@ -57,3 +57,22 @@ REGISTRY["C14"] = dict(level="proof", theorems=[], cases=P.cases_C14, projection
                        oracles=[P.o_spec, P.o_views, P.o_no_defect_panic])
 REGISTRY["C20"] = dict(level="proof", theorems=T("C20", "C20_push_back", "C20_push_front", "C20_pop_back", "C20_pop_front", "C20_swap", "C20_remove", "C20_truncate", "C20_drain", "C20_make_contiguous"), cases=P.cases_C20, projection=proj_physical,
                        oracles=[P.o_spec, P.o_reloc, P.o_views])
+
+IO_THEOREMS = []
+REGISTRY["C16"] = dict(level="translation_validation", theorems=IO_THEOREMS, cases=P.cases_C16, projection=proj_behaviour,
+                       oracles=[P.o_spec, P.o_views, P.o_no_defect_panic],
+                       variants=[dict(features=("eio", "eioa"), harness_args=("--io", "eio"), label="embedded-io"),
+                                 dict(features=("eio", "eioa"), harness_args=("--io", "eioa"), label="embedded-io-async"),
+                                 dict(features=("eio", "eioa"), harness_args=("--io", "std"), label="std::io (same build)"),
+                                 dict(features=("eio",), harness_args=("--io", "eio"), label="embedded-io only"),
+                                 dict(features=("eioa",), harness_args=("--io", "eioa"), label="embedded-io-async only")])
+REGISTRY["C17"] = dict(level="other", theorems=[], cases=P.cases_C17, projection=proj_physical,
+                       oracles=[P.o_no_alloc], extra_checks=[P.build_checks_C17],
+                       explanation="runtime half: counting global allocator in the harness, allocation column compared with the model (which emits alloc only in boxed/to_vec) for every non-panicking call of the C01/C07/C08/C12/C14 case sets; build half: cargo build --no-default-features / --features alloc / default on the current tree plus a source scan that only boxed()/to_vec() name heap types (a build fact, outside any model)")
+REGISTRY["C18"] = dict(level="translation_validation", theorems=[], cases=P.cases_C18, projection=proj_ordered,
+                       oracles=[P.o_views, P.o_ledger, P.o_no_defect_panic],
+                       reference_default_build=True,
+                       variants=[dict(features=("unstable",), nightly=True, label="nightly+unstable")])
+
+from . import c15 as _c15
+REGISTRY["C15"] = dict(level="other", theorems=_c15.THEOREMS, custom=_c15.run)
